@@ -11,11 +11,11 @@ CHECKS = {
    cat="proof",
    text="Lean block-sparse tensor model (M3-M5): every operation is defined on blocks as index functions; theorems state that toDense commutes with the "
         "algebra: element-wise ops, conj, flip_signature, add/sub, transpose, block access, and toDense_tensordot: tensordot over ANY contracted axes (any number, positions, order) equals the dense contraction over "
-        "common leg spaces, for all ranks, sector contents and any commutative ring (toDense_matmul is the matrix-product instance), vdot_eq_dense (vdot = dense inner product), toDense_trace (partial trace over any axis pairs = dense partial trace) toDense_broadcast (diagonal operand), toDense_addLeg (= expand_dims), toDense_removeLeg (= squeeze) toDense_applyMask (= numpy.take along the masked leg; + wf_applyMask) and toDense_diag (+ wf_diag); "
+        "common leg spaces, for all ranks, sector contents and any commutative ring (toDense_matmul is the matrix-product instance), vdot_eq_dense (vdot = dense inner product), toDense_trace (partial trace over any axis pairs = dense partial trace) toDense_broadcast (diagonal operand), toDense_addLeg (= expand_dims), toDense_removeLeg (= squeeze) toDense_applyMask (= numpy.take along the masked leg; + wf_applyMask), toDense_diag (+ wf_diag) and matmul_assoc_dense ((a@b)@c and a@(b@c) have the same dense array: the order of two contractions does not matter); "
         "ncon/einsum are covered by correspondence + NumPy oracles only; operands held lazily / with fused legs by exact view relations (harness/views.py). "
         "Tie: random type-directed programs executed on the real code; after EVERY step the real observables (signature, charge, block keys/shapes/values via "
         "public block access) are compared exactly (integer data) with the compiled Lean model and with NumPy on dense operands; block access/to_numpy/"
-        "to_nonsymmetric/get_legs/`in` consistency oracle.",
+        "to_nonsymmetric (also reverse=True)/get_legs/`in` consistency oracle.",
    note=TB + "Modelled not verified: flat _data/slices re-indexing, NumPy kernels, lazy `trans` (the model is the logical view). Which all-zero blocks a contraction "
         "creates depends on tensordot_policy and is not compared (model is re-synchronised).",
    technique="Lean 4 proof on a block-tensor model + differential program correspondence + NumPy oracle", design="§5 C01"),
@@ -36,7 +36,7 @@ CHECKS = {
         "mapped block and position, for every partition of the legs in any order. Tie: element-position correspondence (every element a distinct integer) of real "
         "fuse_legs(mode='hard') vs the model + exact oracles on the real code: unfuse(fuse(x)) incl. pending transposes and depth<=3, hard/meta/mixed; elements and norm "
         "preserved; tensordot/add/sub/vdot/trace over fused legs == over original legs for equal/overlapping/disjoint sector content; incompatible fusions rejected with "
-        "YastnError; block() vs dense block matrix.",
+        "YastnError (incl. a product leg against a direct-sum leg with identical recorded constituents); block() vs dense block matrix, with all legs blocked or the others declared common_legs.",
    note=TB + "Meta fusion, unfuse as a separate operation (it is the inverse index map by construction), mask/union logic for mismatched histories and block() are tied by "
         "oracles only.",
    technique="Lean 4 proof (index bijections, charge rule) + element-position correspondence + exact oracles", design="§5 C03"),
@@ -46,9 +46,8 @@ CHECKS = {
         "signatures, both nU and every block obeying the selection rule: blocks of U and V obey the selection rule with exactly the promised charges, S has charge 0, the "
         "connecting charge is canonical and INJECTIVE on matrix blocks (no cross terms in U@S@V / Q@R). Tie: exact structure correspondence of real factors (blocks, charges) vs "
         "the model, plus oracles on the real code: charge of each factor, signature/position of the new leg, leg order, is_consistent; numerical contracts validated per run to "
-        "1e-10: reconstruction, U/Q isometric, V co-isometric, eig bi-orthonormal, S non-negative descending and equal to numpy's spectrum, R upper triangular with non-negative diagonal.",
-   note=TB + "LAPACK per-block factorisations are ASSUMED contracts validated numerically on every run (partial proof: assembly logic proved, numerics validated). Low-rank/"
-        "randomised policies are not covered. eigh/eig structure is covered by oracles only.",
+        "1e-10: reconstruction, U/Q isometric, V co-isometric, eig bi-orthonormal, S non-negative descending and equal to numpy's spectrum, R upper triangular with non-negative diagonal; inputs with exactly vanishing blocks; block-wise partial solvers (lowrank/block_arnoldi/block_propack): isometry, order within the sector, the k largest values (1e-6).",
+   note=TB + "LAPACK per-block factorisations are ASSUMED contracts validated numerically on every run (partial proof: assembly logic proved, numerics validated). The torch-only 'randomized' policy is not covered. eigh/eig structure is covered by oracles only.",
    technique="Lean 4 proof of factor charge structure + validated numerical contracts", design="§5 C04"),
  "C05": dict(
    cat="proof",
@@ -119,16 +118,16 @@ CHECKS = {
         "C05's inversion theorem (reordering law, linearity, identity), Gram-form metrics are Hermitian PSD and stay so under conjugation, add_charge_swaps_ bookkeeping laws. "
         "The real EnvBoundaryMPS / EnvCTM / EnvBP / EnvNTU / evolution_step_ are validated against it: exact environments on finite lattices up to 3x3 from random shallow "
         "circuits in fermionic and spin symmetries; measure_1site/nn/2site/nsite/2x2/line vs an independent NumPy Jordan-Wigner reference (1e-8, observed 2e-15); NTU metrics "
-        "Hermitian and PSD at round-off; untruncated evolution step exact with truncation error at round-off; signs and charge-swap bookkeeping vs the Lean driver.",
+        "Hermitian and PSD at round-off; untruncated evolution step exact with truncation error at round-off (EnvNTU and EnvBP incl. the bipartite metric with user-ordered pinv_cutoffs, guarded by a recomputed 'may a cutoff bind' test); dictionary / bond-list / pair-list input forms of the measure functions in any order, windows anywhere in the lattice; signs and charge-swap bookkeeping vs the Lean driver.",
    note=TB + "This is differential validation of the real environments against a verified specification, not a proof about the environment code (DESIGN §5 C12, §8). "
-        "Known finding: EnvBoundaryMPS.measure_nn with fermionically odd operators.",
+        "Two genuine defects found by this check (measure_nn with odd operators, measure_2site with a pair list with gaps) were repaired by fix: commits.",
    technique="Lean 4 verified specification + translation validation of real environments against it", design="§5 C12"),
  "C13": dict(
    cat="proof",
    text="34 Lean theorems about an exact model of truncation_mask (two-stage block/global selection, strict >, per-sector dictionaries): limits respected, "
         "maximality, uniqueness up to ties (kept multisets equal), non-binding limits keep everything, partition of the norm, and (Mathlib) the truncated-factorisation "
         "error identity under isometry contracts. Tie: dyadic-rational spectra run through the real truncation_mask in several symmetries; tie-free masks compared "
-        "bit for bit, tie-heavy ones JUDGED by the proved `Valid` predicate; svd/eigh_with_truncation error identity and limits checked on the real code.",
+        "bit for bit, tie-heavy ones JUDGED by the proved `Valid` predicate; svd/eigh_with_truncation error identity and limits checked on the real code (all NumPy solver policies, non-default Uaxis/Vaxis, operands with meta-fused legs).",
    note=TB + "LAPACK SVD/eigh are contracts validated numerically per run; truncate_multiplets heuristic is outside the property and not modelled.",
    technique="Lean 4 proof over exact truncation model + differential/judged correspondence", design="§5 C13"),
  "C14": dict(
@@ -147,24 +146,24 @@ CHECKS = {
         "objects leave every pre-existing variable unchanged, also when results alias operands), footprint of item assignment (exactly the sharers) and of set_block (receiver "
         "only), allocator invariant, copies are isolated and stay unaffected by ANY history of operations/in-place edits not targeting them. Tie: snapshot monitor on the real code "
         "— bytes of data/struct/slices/hfs/mfs/trans of EVERY pre-existing object before/after EVERY call in random Tensor programs (all ops incl. ncon, fuse, svd, masks), MPS/MPO "
-        "methods and algorithms, PEPS/DoublePepsTensor/environment calls; in-place API on copy/clone/shallow_copy families with the observer sets compared with the heap model.",
+        "methods and algorithms, PEPS/DoublePepsTensor calls, PEPS environments as operands of their own measurements/sampling/serialisation/copies (read through the public attributes), copy()/clone() of updated EnvCTM/EnvBP independent of later in-place updates in both directions; in-place API on copy/clone/shallow_copy families with the observer sets compared with the heap model.",
    note=TB + "Which real operation has which effect is read off the source and OBSERVED (np.shares_memory) on each run, not proved; CPython/NumPy aliasing is outside the model.",
    technique="Lean 4 proof on a heap model + byte-level snapshot monitor", design="§5 C15"),
  "C16": dict(
    cat="proof",
-   text="15 Lean theorems about an LRU model of functools.lru_cache: for every pure f, capacity (0,1,n), coherent initial cache and EVERY finite history of "
-        "call/clear/resize events each call returns f x (transparency), warm = cold, size bound, key uniqueness, hit iff, counters, exact eviction policy. Tie: the 18 "
+   text="24 Lean theorems. LRU model of functools.lru_cache: for every pure f, capacity (0,1,n), coherent initial cache and EVERY finite history of "
+        "call/clear/resize events each call returns f x (transparency), warm = cold, size bound, key uniqueness, hit iff, counters, exact eviction policy; key adequacy (KMemo, a table keyed by a projection k of the argument): every call returns f of the FIRST argument of the history sharing its key, transparent iff k x = k y -> f x = f y, a shared key hands the foreign value over and the two orders of a history disagree. Tie: the 18 "
         "cached yastn functions (every binding) are wrapped at run time; on every HIT the value is recomputed with __wrapped__ and deep-compared, digests detect "
         "mutation after insertion; workload interleaves tensors of different symmetry/fermionic flags/fusion history with coinciding struct/slices under cache sizes "
-        "0/1/2/default with clears/resizes; every operation warm vs cold bit-identical; cache_info() vs the model after every event.",
-   note=TB + "Purity and key adequacy of the real cached functions are monitored (tested), not proved.",
+        "0/1/2/default with clears/resizes; every operation warm vs cold bit-identical; cache_info() vs the model after every event; fresh-process order oracle: every history (also einsum with swap/order strings, dense output in both sector orders, Leg construction from out-of-range charges) is executed in two pristine forked processes, events in the given and in the reversed order, every operation bit-identical in both (covers memoisation that is not an lru_cache).",
+   note=TB + "Purity and key adequacy of the real cached functions are monitored and order-tested, not proved.",
    technique="Lean 4 proof of LRU transparency + run-time cache monitor / warm-vs-cold oracle", design="§5 C16"),
  "C17": dict(
    cat="proof",
    text="64 Lean theorems: combine(split d) = d for every nested dictionary, data order depends only on key structure, record codec fromDict(toDict) at all levels and both "
         "generations, rejection of sym/fermionic/version mismatch, meta embedding linear/injective/norm preserving with zero fill and rejection. Tie: real tensors (diag, "
         "hard/meta fused, lazily transposed, empty, complex), MPS/MPO with/without central block, PEPS on every lattice class, DoublePepsTensor, environments through "
-        "to_dict(level 0-2) -> {identity, split/combine, numpy save/load, HDF5} -> from_dict, compared field by field incl. trans/mfs/hfs and a follow-up contraction; "
+        "to_dict(level 0-2) -> {identity, split/combine, numpy save/load, HDF5} -> from_dict, compared field by field incl. trans/mfs/hfs and a follow-up contraction (MPS factors incl. exactly 0; to_dict(meta=, resolve_ops=True) == resolve_ops=False when nothing is pending); "
         "split/combine vs the model on dictionary skeletons.",
    note=TB + "numpy.save / pickle / HDF5 formats are exercised, not modelled.",
    technique="Lean 4 proof of codecs + round-trip oracles on real objects", design="§5 C17"),
@@ -174,16 +173,16 @@ CHECKS = {
         "breakdown gives an invariant subspace, Ritz pairs exact on invariant subspaces, exp(t F) V = V exp(t T) (powers, polynomials and the exponential over R/C), time bookkeeping "
         "of expmv for an ARBITRARY controller (accepted steps sum to |t|, sign, t=0 and zero-vector branches), lin_solver returns the residual of the returned vector, every "
         "produced vector stays in the Krylov span (sector). Tie: real expmv/eigs/lin_solver on random symmetric block operators (Hermitian or not, real/imaginary/complex t over "
-        "decades incl. forced sub-stepping, all ncv/flags, zero and near-invariant start vectors) vs scipy expm / numpy eigh, eig, solve and vs the Float instantiation of the model.",
+        "decades incl. forced sub-stepping, all ncv/flags, zero, tiny-norm, near-invariant and block-sparse start vectors handed over without their empty blocks) vs scipy expm / numpy eigh, eig, solve and vs the Float instantiation of the model.",
    note=TB + "The tolerance claim of the adaptive controller is a heuristic error estimate and is tested, not proved; floating-point loss of orthogonality is outside exact-arithmetic "
-        "theorems. Four genuine numerical defects are recorded as known findings.",
+        "theorems. Five genuine numerical defects are recorded as known findings.",
    technique="Lean 4 proof of Krylov algebra/bookkeeping + dense oracles + Float model correspondence", design="§5 C18"),
  "C19": dict(
    cat="proof",
    text="Group laws (associativity, commutativity, identity, inverse by signature flip, canonical range, grouping law) are Lean theorems "
         "for all of Z^NSYM, all signature vectors and all groupings, about the fusion rules REGENERATED from yastn/sym/*.py by a translator on every run; "
         "Leg acceptance iff/sortedness/conj involution are theorems about a hand model of Leg.__post_init__. Tie: translator + box correspondence of real "
-        "fuse/add_charges/Leg vs the model + axioms evaluated on the real code over the box.",
+        "fuse/add_charges/Leg vs the model + axioms evaluated on the real code over the box; add_charges with the documented default new_signature; Leg arguments with fractional or integral-float signature, charges and dimensions (oracle only).",
    note=TB + "Modelled, not verified: numpy matmul/mod semantics of the one-line rules (Euclidean mod for positive moduli), Leg constructor restricted to integer arguments.",
    technique="Lean 4 proof over translator-generated model + box correspondence", design="§5 C19"),
  "C20": dict(
